@@ -2,7 +2,7 @@
 // Use of this source code is governed by a BSD-style
 // license that can be found in the LICENSE file.
 
-package interp
+package main
 
 // Emulated "reflect" package.
 //
@@ -281,59 +281,39 @@ func ext۰reflect۰Value۰Len(fr *frame, args []value) value {
 		return len(v)
 	case array:
 		return len(v)
-	case chan value:
-		return cap(v)
+	case *symstr:
+		return len(v.b)
+	case *vchan:
+		return len(v.buf)
 	case []value:
 		return len(v)
-	case *hashmap:
+	case *omap:
 		return v.len()
-	case map[value]value:
-		return len(v)
 	default:
 		panic(fmt.Sprintf("reflect.(Value).Len(%v)", v))
 	}
 }
 
 func ext۰reflect۰Value۰MapIndex(fr *frame, args []value) value {
-	// Signature: func (reflect.Value) Value
-	tValue := rV2T(args[0]).t.Underlying().(*types.Map).Key()
+	mt := rV2T(args[0]).t.Underlying().(*types.Map)
 	k := rV2V(args[1])
-	switch m := rV2V(args[0]).(type) {
-	case map[value]value:
-		if v, ok := m[k]; ok {
-			return makeReflectValue(tValue, v)
-		}
-
-	case *hashmap:
-		if v := m.lookup(k.(hashable)); v != nil {
-			return makeReflectValue(tValue, v)
-		}
-
-	default:
-		panic(fmt.Sprintf("(reflect.Value).MapIndex(%T, %T)", m, k))
+	m := rV2V(args[0]).(*omap)
+	if ix := fr.i.mapFind(m, mt.Key(), k); ix >= 0 {
+		return makeReflectValue(mt.Elem(), m.entries[ix].val)
 	}
 	return makeReflectValue(nil, nil)
 }
 
 func ext۰reflect۰Value۰MapKeys(fr *frame, args []value) value {
-	// Signature: func (reflect.Value) []Value
 	var keys []value
 	tKey := rV2T(args[0]).t.Underlying().(*types.Map).Key()
-	switch v := rV2V(args[0]).(type) {
-	case map[value]value:
-		for k := range v {
-			keys = append(keys, makeReflectValue(tKey, k))
-		}
-
-	case *hashmap:
-		for _, e := range v.entries() {
-			for ; e != nil; e = e.next {
+	m := rV2V(args[0]).(*omap)
+	if m != nil {
+		for _, e := range m.entries {
+			if !e.dead {
 				keys = append(keys, makeReflectValue(tKey, e.key))
 			}
 		}
-
-	default:
-		panic(fmt.Sprintf("(reflect.Value).MapKeys(%T)", v))
 	}
 	return keys
 }
@@ -353,14 +333,12 @@ func ext۰reflect۰Value۰Pointer(fr *frame, args []value) value {
 	switch v := rV2V(args[0]).(type) {
 	case *value:
 		return uintptr(unsafe.Pointer(v))
-	case chan value:
-		return reflect.ValueOf(v).Pointer()
+	case *vchan:
+		return uintptr(unsafe.Pointer(v))
 	case []value:
 		return reflect.ValueOf(v).Pointer()
-	case *hashmap:
-		return reflect.ValueOf(v.entries()).Pointer()
-	case map[value]value:
-		return reflect.ValueOf(v).Pointer()
+	case *omap:
+		return uintptr(unsafe.Pointer(v))
 	case *ssa.Function:
 		return uintptr(unsafe.Pointer(v))
 	case *closure:
@@ -463,11 +441,9 @@ func ext۰reflect۰Value۰IsNil(fr *frame, args []value) value {
 	switch x := rV2V(args[0]).(type) {
 	case *value:
 		return x == nil
-	case chan value:
+	case *vchan:
 		return x == nil
-	case map[value]value:
-		return x == nil
-	case *hashmap:
+	case *omap:
 		return x == nil
 	case iface:
 		return x.t == nil
@@ -516,58 +492,29 @@ func newMethod(pkg *ssa.Package, recvType types.Type, name string) *ssa.Function
 	return fn
 }
 
-func initReflect(i *interpreter) {
-	i.reflectPackage = &ssa.Package{
-		Prog:    i.prog,
+func initReflectProg(p *program) {
+	p.reflPkg = &ssa.Package{
+		Prog:    p.prog,
 		Pkg:     reflectTypesPackage,
 		Members: make(map[string]ssa.Member),
 	}
-
-	// Clobber the type-checker's notion of reflect.Value's
-	// underlying type so that it more closely matches the fake one
-	// (at least in the number of fields---we lie about the type of
-	// the rtype field).
-	//
-	// We must ensure that calls to (ssa.Value).Type() return the
-	// fake type so that correct "shape" is used when allocating
-	// variables, making zero values, loading, and storing.
-	//
-	// TODO(adonovan): obviously this is a hack.  We need a cleaner
-	// way to fake the reflect package (almost---DeepEqual is fine).
-	// One approach would be not to even load its source code, but
-	// provide fake source files.  This would guarantee that no bad
-	// information leaks into other packages.
-	if r := i.prog.ImportedPackage("reflect"); r != nil {
+	if r := p.prog.ImportedPackage("reflect"); r != nil {
 		rV := r.Pkg.Scope().Lookup("Value").Type().(*types.Named)
-
-		// delete bodies of the old methods
-		mset := i.prog.MethodSets.MethodSet(rV)
+		mset := p.prog.MethodSets.MethodSet(rV)
 		for j := 0; j < mset.Len(); j++ {
-			i.prog.MethodValue(mset.At(j)).Blocks = nil
+			p.prog.MethodValue(mset.At(j)).Blocks = nil
 		}
-
 		tEface := types.NewInterface(nil, nil).Complete()
 		rV.SetUnderlying(types.NewStruct([]*types.Var{
 			types.NewField(token.NoPos, r.Pkg, "t", tEface, false), // a lie
 			types.NewField(token.NoPos, r.Pkg, "v", tEface, false),
 		}, nil))
 	}
-
-	i.rtypeMethods = methodSet{
-		"Bits":      newMethod(i.reflectPackage, rtypeType, "Bits"),
-		"Elem":      newMethod(i.reflectPackage, rtypeType, "Elem"),
-		"Field":     newMethod(i.reflectPackage, rtypeType, "Field"),
-		"In":        newMethod(i.reflectPackage, rtypeType, "In"),
-		"Kind":      newMethod(i.reflectPackage, rtypeType, "Kind"),
-		"NumField":  newMethod(i.reflectPackage, rtypeType, "NumField"),
-		"NumIn":     newMethod(i.reflectPackage, rtypeType, "NumIn"),
-		"NumMethod": newMethod(i.reflectPackage, rtypeType, "NumMethod"),
-		"NumOut":    newMethod(i.reflectPackage, rtypeType, "NumOut"),
-		"Out":       newMethod(i.reflectPackage, rtypeType, "Out"),
-		"Size":      newMethod(i.reflectPackage, rtypeType, "Size"),
-		"String":    newMethod(i.reflectPackage, rtypeType, "String"),
+	p.rtypeM = methodSet{}
+	for _, n := range []string{"Bits", "Elem", "Field", "In", "Kind", "NumField", "NumIn", "NumMethod", "NumOut", "Out", "Size", "String"} {
+		p.rtypeM[n] = newMethod(p.reflPkg, rtypeType, n)
 	}
-	i.errorMethods = methodSet{
-		"Error": newMethod(i.reflectPackage, errorType, "Error"),
+	p.errorM = methodSet{
+		"Error": newMethod(p.reflPkg, errorType, "Error"),
 	}
 }
